@@ -36,6 +36,16 @@ def c10_build(valid, unit, v, r, new_id):
     return c.line(new_id)
 
 
+def c10_plan_request(valid, unit, v, r):
+    """model-driver request for the SPEC's plan script of this (base, vector, r) — see props/families/valve.py; theorems
+    C10_mindustry_query_* (Props/C10_mindustry_whole.lean)"""
+    import re
+    m = re.fullmatch(r"md(\d+)_(\d+)", valid.id)
+    if not m:
+        return None
+    return f"mindustryplan {m.group(1)} {m.group(2)} {r} {v}"
+
+
 def c10_attempts(valid, unit, sends, clean):
     return sum(1 for (_, _, data, _) in sends if data == "fe01")
 
